@@ -31,13 +31,38 @@ class PathRules:
         self.pf = PathFlow(facts, world, self.inter)
         self.D = D or Discharger(facts)
         self.methods = world.path_methods()
+        self._bodies = {}
 
     # ------------------------------------------------------------------ helpers
     def bodies(self, name):
+        """the method and the code that runs as that method: its closures / coroutine, and private helpers of the path type that
+        receive every argument of the method unchanged and in place (the body moved into `fn name_internal(&self, ..)`), in
+        which argument i still means argument i"""
         b = self.methods.get(name)
         if b is None:
             return None, []
-        return b, self.inter.code_bodies(b)
+        if name in self._bodies:
+            return b, self._bodies[name]
+        cbs = list(self.inter.code_bodies(b))
+        seen = {c.id for c in cbs}
+        for cb in list(cbs):
+            tr = get_tracer(self.facts, cb)
+            for s in self.inter.sites(cb):
+                hb = self.inter.local_callee(s)
+                if self.private_helper(hb) and hb.id != b.id and len(s.args) == b.arg_count and \
+                        len(s.args) >= 1 and all(self.is_arg(tr.operand(a), i) for i, a in enumerate(s.args)):
+                    for hcb in self.inter.code_bodies(hb):
+                        if hcb.id not in seen:
+                            seen.add(hcb.id)
+                            cbs.append(hcb)
+        self._bodies[name] = cbs
+        return b, cbs
+
+    def cbs(self, b):
+        """code bodies of a method of the path type, pass-through helpers included (see bodies)"""
+        if self.methods.get(b.name) is b:
+            return self.bodies(b.name)[1]
+        return list(self.inter.code_bodies(b))
 
     def sites(self, name, pred):
         """[(code body, site)] call sites in method `name` (closures incl.) satisfying pred(site)"""
@@ -157,6 +182,14 @@ class PathRules:
                 rep.fail(rule, w.path_ty, "%s present" % name, "public method missing")
                 continue
             mut_sites = list(self.pf.mutated_operands(b))
+            # a private helper that receives all arguments unchanged is part of the method: judge the mutating calls inside it
+            # (where the guards are), not the call that enters it
+            helpers = [hb for hb in self.bodies(name)[1] if hb.kind != "Closure" and hb.id != b.id]
+            if helpers:
+                hids = {hb.id for hb in helpers}
+                mut_sites = [m for m in mut_sites if not (self.inter.local_callee(m[0]) is not None and self.inter.local_callee(m[0]).id in hids)]
+                for hb in helpers:
+                    mut_sites.extend(self.pf.mutated_operands(hb))
             if not mut_sites:
                 rep.fail(rule, b.id, "%s mutates" % name, "no mutating call found", b.span)
             for site, j, origin in mut_sites:
@@ -203,7 +236,7 @@ class PathRules:
             # ... and that is the only thing the transfer itself refuses: every error built here (or in a private helper that gets
             # (self, destination) passed through) sits on the destination-exists edge.  A second home-made refusal (e.g. a
             # string comparison of the two paths that forgets they may live on different filesystems) rejects valid transfers
-            for cb_ in list(self.inter.code_bodies(b)) + self.passthrough_helpers(name):
+            for cb_ in list(self.cbs(b)) + self.passthrough_helpers(name):
                 for blk in cb_.blocks:
                     if blk.cleanup:
                         continue
@@ -223,7 +256,7 @@ class PathRules:
             # the refusal builds an error
             ss = self.sites(name, lambda s: sname(s.path) == "exists")
             has_refusal = False
-            bodies_ = list(self.inter.code_bodies(b))
+            bodies_ = list(self.cbs(b))
             # private helpers of the path type called from here (e.g. an extracted "ensure destination is free")
             helpers_ = []
             for cb in bodies_:
@@ -244,7 +277,7 @@ class PathRules:
                             if self.g_exists(gs, (lambda t: t[0] == "arg") if is_helper else (lambda t: self.is_arg(t, 1)), True):
                                 has_refusal = True
             if name == "copy_dir" and not has_refusal:
-                has_refusal = any(sname(s.path) == "create_dir" for cb in self.inter.code_bodies(b) for s in self.inter.sites(cb)
+                has_refusal = any(sname(s.path) == "create_dir" for cb in self.cbs(b) for s in self.inter.sites(cb)
                                   if s.args and self.is_arg(get_tracer(self.facts, cb).operand(s.args[0]), 1))
             n += 1
             rep.ob(rule, b.id, "%s: existing destination returns Err" % name, has_refusal,
@@ -279,7 +312,7 @@ class PathRules:
         if b is None:
             rep.fail(rule, w.path_ty, "remove_dir_all present", "public method missing")
         else:
-            cbs = self.inter.code_bodies(b)
+            cbs = self.cbs(b)
             okret = False
             for cb in cbs:
                 for blk in cb.blocks:
@@ -436,7 +469,7 @@ class PathRules:
             b = self.methods.get(name)
             if b is None:
                 continue
-            for cb in self.inter.code_bodies(b):
+            for cb in self.cbs(b):
                 tr = get_tracer(self.facts, cb)
                 for s in self.inter.sites(cb):
                     if sname(s.path) == "copy" and s.path.endswith("io::copy"):
@@ -449,14 +482,14 @@ class PathRules:
                         n += 2
                         rep.ob(rule, b.id, "%s: stream copy reads self.open_file()" % name, okr, fmt(r)[:60], s.line)
                         rep.ob(rule, b.id, "%s: stream copy writes destination.create_file()" % name, okw, fmt(wri)[:60], s.line)
-            if not any(sname(s.path) == "copy" and s.path.endswith("io::copy") for cb in self.inter.code_bodies(b) for s in self.inter.sites(cb)):
+            if not any(sname(s.path) == "copy" and s.path.endswith("io::copy") for cb in self.cbs(b) for s in self.inter.sites(cb)):
                 rep.fail(rule, b.id, "%s: generic stream copy present" % name, "no io::copy call found", b.span)
         for name in ("copy_dir", "move_dir"):
             b = self.methods.get(name)
             if b is None:
                 continue
             found = {"create_dir_dest": 0, "child_dir": 0, "child_file": 0}
-            for cb in self.inter.code_bodies(b):
+            for cb in self.cbs(b):
                 tr = get_tracer(self.facts, cb)
                 for s in self.inter.sites(cb):
                     nm = sname(s.path)
@@ -525,7 +558,7 @@ class PathRules:
         n = 0
         # the returned Ok payload is a counter: phi(0, counter + 1); increments sit in the loop after copy succeeded
         incs = []
-        for cb in self.inter.code_bodies(b):
+        for cb in self.cbs(b):
             tr = get_tracer(self.facts, cb)
             for blk in cb.blocks:
                 if blk.cleanup:
@@ -537,7 +570,7 @@ class PathRules:
                         incs.append((cb, blk.idx, t.line))
         # `+= 1` on a u64 (directly or through a captured &mut): the overflow assert names the constant 1_u64
         incs = []
-        for cb in self.inter.code_bodies(b):
+        for cb in self.cbs(b):
             for blk in cb.blocks:
                 if blk.cleanup:
                     continue
@@ -622,7 +655,7 @@ class PathRules:
             rep.fail(rule, w.path_ty, "create_dir_all present", "public method missing")
             return 0
         n = 0
-        cbs = self.inter.code_bodies(b)
+        cbs = self.cbs(b)
         creates = []
         observers = []
         for cb in cbs:
